@@ -135,10 +135,19 @@ func TestC17RequestJSON(t *testing.T) {
 			for _, s := range r.Sort {
 				ss := search.ParseSearchSortString(s)
 				if sf, ok := ss.(*search.SortField); ok {
-					sf.Mode = search.SortFieldMin
-					sf.Missing = search.SortFieldMissingFirst
-					if sf.Field == "n" {
-						sf.Type = search.SortFieldAsNumber
+					// every option on its own: a request that differs from the compact string form
+					// in one option only must still keep that option
+					sf.Mode = rapid.SampledFrom([]search.SortFieldMode{search.SortFieldDefault, search.SortFieldMin, search.SortFieldMax}).Draw(t, "sortMode")
+					sf.Missing = rapid.SampledFrom([]search.SortFieldMissing{search.SortFieldMissingLast, search.SortFieldMissingFirst}).Draw(t, "sortMissing")
+					if rapid.Bool().Draw(t, "sortTyped") {
+						switch sf.Field {
+						case "n":
+							sf.Type = search.SortFieldAsNumber
+						case "d":
+							sf.Type = search.SortFieldAsDate
+						default:
+							sf.Type = search.SortFieldAsString
+						}
 					}
 				}
 				so = append(so, ss)
@@ -183,6 +192,14 @@ func TestC17RequestJSON(t *testing.T) {
 		}
 		if string(j) != string(j2) {
 			t.Fatalf("request JSON is not a fixpoint\n first  %s\n second %s", j, j2)
+		}
+		if len(req.Sort) != len(req2.Sort) {
+			t.Fatalf("request %s parses back with %d sort keys instead of %d", j, len(req2.Sort), len(req.Sort))
+		}
+		for i := range req.Sort {
+			if a, b := fmt.Sprintf("%T%+v", req.Sort[i], req.Sort[i]), fmt.Sprintf("%T%+v", req2.Sort[i], req2.Sort[i]); a != b {
+				t.Fatalf("sort key %d of the request is %s, after the JSON round trip it is %s\n json %s", i, a, b, j)
+			}
 		}
 		ctxDump = func() string { return fmt.Sprintf("C17 request %s on %s", j, c.Cfg) }
 		ra, errA := SearchWatchdog(c.Idx, req)
